@@ -781,3 +781,75 @@ Proof.
   destruct (flash_loop_ok p (qval d) s Hp) as (_ & I2 & I3).
   rewrite H in I2, I3. cbn [evs fst snd] in I2, I3. auto.
 Qed.
+
+(* ------------------------------------------------------------------ *)
+(* final forms used by Props/C19_led.v                                 *)
+(* ------------------------------------------------------------------ *)
+Lemma clamp_inv : forall s, Inv_led s -> clampZ 0 255 (bright s) = bright s.
+Proof. intros s [H _]. unfold clampZ. lia. Qed.
+
+Lemma failed_call_atomic_run : forall p ops o s' e k,
+  scalar_args o = true -> step (run (init p) ops) o = (s', e, Raised k) ->
+  s' = run (init p) ops /\ e = [].
+Proof. intros p ops o s' e k. apply failed_call_atomic. Qed.
+
+Lemma led_blink_final : forall s d t s' e r,
+  step s (Blink d t) = (s', e, Ok r) ->
+  qsum (sleeps e) == 2 * qval t * qval d /\
+  sleeps e = repeat (qval d) (2 * Z.to_nat (zval t)) /\
+  chan 0 (levels e) = concat (repeat [255%Z; 0%Z] (Z.to_nat (zval t))) /\
+  s' = mkLed (pin s) false 0.
+Proof.
+  intros s d t s' e r H. destruct (blink_spec _ _ _ _ _ _ H) as (H1 & H2 & H3 & H4 & _). auto.
+Qed.
+
+Lemma led_fade_in_final : forall s stp d s' e r,
+  Inv_led s -> step s (FadeIn stp d) = (s', e, Ok r) ->
+  let lv := chan 0 (levels e) in
+  let n := (length lv - 1)%nat in
+  s' = mkLed (pin s) true 255 /\
+  mono_le (bright s :: lv) /\
+  Forall (fun z => (0 <= z <= 255)%Z) lv /\
+  last lv 0%Z = 255%Z /\
+  sleeps e = repeat (qval d) n /\
+  qsum (sleeps e) == inject_Z (Z.of_nat n) * qval d /\
+  Z.of_nat n = Qceiling ((255 - inject_Z (bright s)) / qval stp).
+Proof.
+  intros s stp d s' e r Hinv H. pose proof (fade_in_spec _ _ _ _ _ _ H) as S.
+  cbv zeta in S. rewrite (clamp_inv _ Hinv) in S. cbv zeta. tauto.
+Qed.
+
+Lemma led_fade_out_final : forall s stp d s' e r,
+  Inv_led s -> step s (FadeOut stp d) = (s', e, Ok r) ->
+  let lv := chan 0 (levels e) in
+  let n := (length lv - 1)%nat in
+  s' = mkLed (pin s) false 0 /\
+  mono_ge (bright s :: lv) /\
+  Forall (fun z => (0 <= z <= 255)%Z) lv /\
+  last lv 255%Z = 0%Z /\
+  sleeps e = repeat (qval d) n /\
+  qsum (sleeps e) == inject_Z (Z.of_nat n) * qval d /\
+  Z.of_nat n = Qceiling (inject_Z (bright s) / qval stp).
+Proof.
+  intros s stp d s' e r Hinv H. pose proof (fade_out_spec _ _ _ _ _ _ H) as S.
+  cbv zeta in S. rewrite (clamp_inv _ Hinv) in S. cbv zeta. tauto.
+Qed.
+
+Lemma led_flash_final : forall s p d s' e r,
+  step s (FlashPattern p d) = (s', e, Ok r) ->
+  sleeps e = repeat (qval d) (length p - 1) /\ length (levels e) = length p.
+Proof.
+  intros s p d s' e r H. destruct (flash_pattern_spec _ _ _ _ _ _ H) as (_ & H1 & H2 & _). auto.
+Qed.
+
+Lemma led_toggle_final : forall s, Inv_led s ->
+  Led.lit (st (step s Toggle)) = negb (Led.lit s) /\
+  bright (st (step s Toggle)) = (if Led.lit s then 0 else 255)%Z.
+Proof.
+  intros s _. cbn [step]. unfold toggle. destruct (Led.lit s); [rewrite off_eq|rewrite on_eq]; auto.
+Qed.
+
+Lemma led_getters_final : forall s,
+  step s GetState = (s, [], Ok (RBool (Led.lit s))) /\
+  step s GetBrightness = (s, [], Ok (RInt (bright s))).
+Proof. intro s. split; reflexivity. Qed.
